@@ -36,29 +36,28 @@ Theorem C15_spec_link : forall Sc A n, closedb Sc (closure_fuel Sc n A) = true -
 Proof. exact closure_fuel_correct. Qed.
 
 (* the field store follows the graph: the graph component of the model with fields is the model without.
-   [cls o] is the ==-class of object o (Python ==/hash); `value in container` compares with ==, the graph by identity *)
+   [cls o] is the ==-class of object o (Python ==/hash); the symbol graph and the write-back into list and single-valued fields go by
+   identity, a Python set by == *)
 Theorem C15_fields_graph : forall Sc sc li cls n A s, runV Sc sc li cls n A = Some s -> run Sc n A = Some (fst s).
 Proof. exact runV_graph. Qed.
 
-(* container fields hold exactly the relations of the graph, when no two distinct objects compare equal *)
-Theorem C15_fields_agree : forall Sc sc li cls, (forall a b, cls a = cls b -> a = b) ->
-  forall n A E V, runV Sc sc li cls n A = Some (E, V) ->
-  forall e, sc (efld e) = false -> (In e V <-> In e E).
-Proof. exact runV_fields. Qed.
+(* list fields hold exactly the relations of the graph, object by object, whatever compares equal *)
+Theorem C15_list_fields_agree : forall Sc sc li cls n A E V, runV Sc sc li cls n A = Some (E, V) ->
+  forall e, sc (efld e) = false -> li (efld e) = true -> (In e V <-> In e E).
+Proof. exact runV_list_fields. Qed.
 
-(* ... and NOT otherwise (known finding C15-b): companies 0 and 1 are distinct but ==-equal, person 2; members (field 0) and
-   member_of (field 1, a list) are inverse.  After c0.members.add(p); c1.members.add(p) the relation (p, member_of, c1) is in the
-   graph but c1 is not in p.member_of: the write-back's `value in container` found the equal c0 *)
-Theorem C15_refuted_equal_twins :
-  let Sc := mk_schema [(0, 0); (1, 0); (2, 1)] [] [] [] [(1, 0, (false, 1)); (0, 1, (false, 0))] [(0, 0); (1, 1)] [] in
-  let cls := fun o => if Nat.eqb o 1 then 0 else o in
-  exists E V, runV Sc (fun _ => false) (Nat.eqb 1) cls 20 [(0, 0, 2); (1, 0, 2)] = Some (E, V)
-              /\ In (2, 1, 1) E /\ ~ In (2, 1, 1) V.
-Proof.
-  eexists. eexists. split; [vm_compute; reflexivity|]. split.
-  - simpl. tauto.
-  - simpl. intros H. repeat (destruct H as [H | H]; [discriminate|]). exact H.
-Qed.
+(* set fields: what the field holds is in the graph, and for every relation of the graph the field holds an element ==-equal to its
+   target (a Python set cannot hold two equal objects) *)
+Theorem C15_set_fields_agree : forall Sc sc li cls n A E V, runV Sc sc li cls n A = Some (E, V) ->
+  forall e, sc (efld e) = false -> li (efld e) = false ->
+    (In e V -> In e E) /\
+    (In e E -> exists v, In v V /\ esrc v = esrc e /\ efld v = efld e /\ cls (etgt v) = cls (etgt e)).
+Proof. exact runV_set_fields. Qed.
+
+(* hence, when no two distinct objects compare equal, every container field holds exactly the relations of the graph *)
+Theorem C15_fields_agree : forall Sc sc li cls n A E V, (forall a b, cls a = cls b -> a = b) ->
+  runV Sc sc li cls n A = Some (E, V) -> forall e, sc (efld e) = false -> (In e V <-> In e E).
+Proof. exact runV_fields. Qed.
 
 (* non-vacuity: sub-organisation chain asserted leaf-to-root and root-to-leaf (transitive field 0 of descriptor 0) *)
 Example C15_nonvacuous :
@@ -74,5 +73,6 @@ Print Assumptions C15_order_independent.
 Print Assumptions C15_fuel.
 Print Assumptions C15_spec_link.
 Print Assumptions C15_fields_graph.
+Print Assumptions C15_list_fields_agree.
+Print Assumptions C15_set_fields_agree.
 Print Assumptions C15_fields_agree.
-Print Assumptions C15_refuted_equal_twins.
